@@ -36,23 +36,25 @@ Theorem c15_merge_extremes : forall rv input out, merge_rel 0 rv input out ->
   (exists c, In c input /\ ubP (c_mean c) input /\ snd (lastc out) = snd c /\ c_mean (lastc out) == c_mean c).
 Proof. exact merge_extremes. Qed.
 
-(* in-process digests ([reach], Spec/TDigestSpec.v): centroid weights (plus buffered values) sum to
-   total_weight, means sorted, every mean inside [min, max] *)
-Theorem c15_inprocess_structure : forall h d, reach h d ->
+(* in-process digests ([reach] over a history without a decoded image, Spec/TDigestSpec.v): centroid
+   weights (plus buffered values) sum to total_weight, means sorted, every mean inside [min, max] *)
+Theorem c15_inprocess_structure : forall h d, reach h d -> inprocess h ->
   (sumw (td_cs d) + Z.of_nat (length (td_buf d)))%Z = td_total d /\ sortedP (td_cs d) /\
   (forall c, In c (td_cs d) -> exists mn mx, td_min d = Some mn /\ td_max d = Some mx /\ mn <= c_mean c /\ c_mean c <= mx).
 Proof. exact inproc_structure. Qed.
 
 (* once compressed, the first mean IS min and the last mean IS max (exact to one sample at the
-   extremes; the tail branches of rank / quantile are dead code for in-process digests) *)
-Theorem c15_inprocess_extremes : forall h d, reach h d -> td_buf d = [] -> td_cs d <> [] ->
+   extremes; the tail branches of rank / quantile are dead code for in-process digests).  Digests
+   continued from a decoded image keep sortedness and the [min, max] range (c10_reachable_views_are_wellformed,
+   Props/C10.v) but not this: an image may carry heavy or loose end centroids *)
+Theorem c15_inprocess_extremes : forall h d, reach h d -> inprocess h -> td_buf d = [] -> td_cs d <> [] ->
   wf_view (td_view d) /\ unit_ends_tight (td_view d) /\
   v_min (td_view d) == c_mean (firstc (td_cs d)) /\ c_mean (lastc (td_cs d)) == v_max (td_view d).
 Proof. exact inproc_view_wf. Qed.
 
 (* the buffer never holds more than BUFFER_MULTIPLIER * (2k + fudge) values; the constants are the
    translated ones (Gen/GenTDigest.v) *)
-Theorem c15_buffer_bound : forall h d, reach h d -> (Z.of_nat (length (td_buf d)) <= buf_limit (td_k d))%Z.
+Theorem c15_buffer_bound : forall h d, reach h d -> inprocess h -> (Z.of_nat (length (td_buf d)) <= buf_limit (td_k d))%Z.
 Proof. exact buffer_bound. Qed.
 
 Theorem c15_buffer_limit_value : forall k, buf_limit k = (4 * (2 * k + (if (k <? 30)%Z then 30 else 10)))%Z.
